@@ -157,10 +157,15 @@ def run(R, env):
     if "SubmitBatch" in sites:
         h = sites["SubmitBatch"]
         hk = h.body.key
-        ws = shared.state_writes(prog, h, env)
+        # judged in the world where the batch total is not zero; with a zero total an untouched state is the same value
+        from .shared import is_pending_batch as _ipb
+        h_nz, h_z = shared.zero_worlds(h, lambda t: t[0] == "field" and t[2] == "batch_total_liquid_stake" and _ipb(prog, t[1]))
+        R.worlds += 2
+        ws = shared.state_writes(prog, h_nz, env)
         R.floor("C01.R3", "STATE writes in SubmitBatch", len(ws), 1)
         subtracted = []
-        for op, alts in ws:
+        zw = [(o_, [(b_, d_) for b_, d_ in (a_ or []) if ("total_native_token",) in d_]) for o_, a_ in shared.state_writes(prog, h_z, env)]
+        for op, alts in ws + [(o_, a_) for o_, a_ in zw if a_]:
             good = bool(alts)
             why = ""
             for base, d in alts or []:
